@@ -29,7 +29,7 @@ PROP = {'lean': 'MpsProps.C11',
                'is replaced by constant / repeating / honest sources, real FROST signers (configs from a real keygen) and taproot.Sign are run, and '
                'Lean (BLAKE3, SHA-256, secp256k1 re-implemented) recomputes D_i, E_i and R.x bit for bit; pairs of contexts differing in exactly one '
                'component must publish different commitments.',
- 'level_note': 'Hash-dependent conclusions are of the form "... or an explicit collision of H/KDF/KH on these two inputs" (no hash assumption). The '
+ 'level_note': 'Random sources with short reads (one byte per Read call) are part of the suite: the signer must consume all 32 auxiliary bytes. Hash-dependent conclusions are of the form "... or an explicit collision of H/KDF/KH on these two inputs" (no hash assumption). The '
                'message is hashed without a length prefix; injectivity rests on the fixed widths 64 and 32 of its neighbours (hypotheses hH / alen, '
                'met by hash.Sum and the 32-byte buffer; tied by gen_frost_round1). Modelled, not verified: zeebo/blake3 and dcrd secp256k1 (exercised '
                'bit for bit by the correspondence run).'}
